@@ -78,7 +78,7 @@ class Exec:
                 self.after_cfg0 = True
             if name == "lru_resize" and op["args"][2] == 0:
                 self.after_cfg0 = True
-        if name in ("pickle", "copy", "deepcopy", "reduce") and res is not None:
+        if name in ("pickle", "copy", "deepcopy", "reduce", "legacy_setstate") and res is not None:
             o = op["on"]
             self.pairs.append((o, idx))
             self.ctr.inc("restart_" + name)
@@ -88,7 +88,7 @@ class Exec:
             pre = [k for k in memo if k in PREFILLED or k in W.ACCESSORS_SET]
             if src["op"] == "new" and isinstance(src["args"][0] if src.get("args") else None, str) and not (src.get("kwargs") or {}).get("encoded"):
                 self.ctr.inc("restart_of_parser_prefilled")
-            if src["op"] in ("pickle", "copy", "deepcopy", "reduce"):
+            if src["op"] in ("pickle", "copy", "deepcopy", "reduce", "legacy_setstate"):
                 self.ctr.inc("restart_twin_of_twin")
             if pre:
                 self.nontrivial.add(C.h8(W.shallow(self.slots[o])))
